@@ -5,7 +5,7 @@ META = {
 }
 HARNESSES = [
     dict(name="fixproblem", src="fixproblem.c",
-         funcs=["fix_problem", "find_latch", "end_problem_latch"],
+         funcs=["fix_problem", "find_latch"],
          cut_statics={"e2fsck/problem.c": ["find_problem"]},
          configs=[{"MODE": 1}, {"MODE": 2}, {"MODE": 0, "_tier": "thorough"}, {"MODE": 3, "_tier": "thorough"}]
                  + [{"MODE": m, "NONINTERF": None, "_tier": "thorough"} for m in (0, 1, 2, 3)],
@@ -53,4 +53,12 @@ HARNESSES = [
          backends=["default", "kissat"],
          bound="all 2^16 inode modes, all type bytes, all feature words, every combination of pass-1 map membership"),
 ]
-MANIFEST = {"text": "", "note": ""}
+MANIFEST = {
+    "text": "Kernel-level slice (partial). Bounded-exhaustive: (1) the fix_problem() protocol over every entry of the real problem_table, every "
+            "latch state and flag word: 'no' un-marks valid unless PR_NO_OK, 'yes' sets PROBLEMS_FIXED unless PR_NOT_A_FIX, -n never fixes and "
+            "never asks, -y answers yes to everything not PR_FORCE_NO, display flags/counters never change the outcome; (2) repair idempotence of "
+            "check_dot, check_dotdot, check_name, check_filetype on fully symbolic entries; (3) an inductive step of the salvage loop proving it "
+            "terminates with a chain of valid entries. Whole-run convergence of e2fsck -fy / -fn is outside.",
+    "note": "Trusted: CBMC's C semantics; fix_problem stubbed to 'yes' in the kernels; the caller's dirent validity test restated from the format; "
+            "find_problem cut to a slot-copying stub (table lookup itself is a linear search, not separately decided).",
+}
